@@ -167,6 +167,21 @@ def run_job(ws, unit, job, tier):
     rec['backend'] = 'cbmc 6.11 SAT (%s)' % solver
     cmdline.append(' '.join(cb))
     rec['cmd'] = ' && '.join(cmdline)
+    # phase 1: list the properties and drop the classes that are deliberately not claimed (they may fail, and with a
+    # non-incremental external SAT solver one failing property leaves all others UNKNOWN)
+    rc, out, err, t = sh([c for c in cb if c != '--trace'] + ['--show-properties'], timeout=300)
+    keep = []; dropped = 0
+    try:
+        for item in json.loads(out):
+            for p in item.get('properties', []):
+                if any(pt.search(p.get('description', '')) for pt in IGNORED_CLASSES): dropped += 1
+                else: keep.append(p['name'])
+    except Exception:
+        rec['status'] = 'ERROR'; rec['detail'] = 'cbmc --show-properties: ' + (err or out)[-2000:]; return rec
+    rec['ignored_properties'] = dropped
+    if not keep:
+        rec['status'] = 'ERROR'; rec['detail'] = 'no properties generated'; return rec
+    for p in keep: cb += ['--property', p]
     rc, out, err, t = sh(cb, timeout=job.get('timeout', 600))
     rec['solver_s'] = round(t, 2)
     if rc == -9:
